@@ -165,6 +165,7 @@ package simpledb
 //@ func executeCompaction
 //@   props C06 C02 C11 C01 C19
 //@   bounded compaction_cycle reads unchanged by a compaction cycle and after restart: 5 fixed table lineages
+//@   bounded db_handles descriptors, mappings and goroutines of a database: 2 rounds x 3 open/close cycles on one directory x 4 flush cycles with 2 compactions each, handle count <= 3 x live tables + 8 while open and 0 after Close, a compaction failing on a damaged input table, goroutine count back to the start value
 //@   replay compaction_cycle
 //@   requires db.sstableManager != nil && db.sstableManager.managerLock != nil
 //@   requires forall t :: 0 <= t && t < len(db.sstableManager.allSSTableReaders) ==> db.sstableManager.allSSTableReaders[t] != nil
